@@ -32,6 +32,7 @@ type Step struct {
 	Key   int    `json:"key,omitempty"` // deterministic key number for import_obj
 	Msg   string `json:"msg,omitempty"`
 	Mut   string `json:"mut,omitempty"` // multisig: none reorder duplicate missing truncate nested-misplaced
+	Hint  string `json:"hint,omitempty"` // export_armor: the hint stored with the export
 }
 
 type Trace struct {
@@ -332,7 +333,7 @@ func (e *exec) do(s *Step) {
 		st.C("signatures_checked", 1)
 	case "export_armor":
 		addr, mk := e.addrOf(s.Slot)
-		armor, err := e.kb.ExportPrivKeyEncryptedArmor(addr, s.Pass, s.Pass2, "hint")
+		armor, err := e.kb.ExportPrivKeyEncryptedArmor(addr, s.Pass, s.Pass2, s.Hint)
 		e.log = append(e.log, fmt.Sprintf("export_armor err=%v", err != nil))
 		unchanged("an export")
 		right := mk != nil && mk.pass == s.Pass
